@@ -296,3 +296,18 @@ Proof.
   apply qn_equilibrium_fixed_point; assumption.
 Qed.
 End Strang.
+
+(* ------------------------------------------------------------------------------------------ *)
+(** * real_in_real_out for the model's own per-mode parameters (QN configuration) *)
+Theorem qn_QN_real_in_real_out (F : Type) (f0 f1 : F) (fadd fmul fsub fdiv : F -> F -> F) (fopp finv : F -> F)
+  (nth_ nr : nat) (dft idft : qn_vec F -> qn_vec F) (solveP : qn_param -> qn_vec F -> qn_vec F) (nb : Z) (d : qn_param) :
+  qn_dft_laws F f0 fadd fmul fopp nth_ dft idft ->
+  qn_solve_laws F fmul fopp nr qn_param solveP ->
+  forall rho : qn_fld F,
+  (forall r k, r < nr -> k < nth_ -> qn_is_real F f0 (rho r k)) ->
+  forall r k, r < nr -> k < nth_ ->
+  qn_is_real F f0 (qn_phi F dft idft qn_param solveP (qn_params nb qn_QN_lN qn_QN_uN nth_) d rho r k).
+Proof.
+  intros L S rho Hreal. apply (qn_real_in_real_out F f0 fadd fmul fopp nth_ nr dft idft qn_param solveP _ d L S rho); [|exact Hreal].
+  intros I HI. unfold qn_par. rewrite !qn_params_nth by (try apply qn_conj_lt; exact HI). apply qn_QN_param_conj. exact HI.
+Qed.
